@@ -370,6 +370,9 @@ func schedChoices(e *mc.SchedExec) []int { return e.Choices() }
 // is a child process that builds the inputs with reference code, runs exactly one
 // schedule of the program and only afterwards computes the sequential results.
 
+// c19ColdHorizon: preemptions of a cold-start execution are explored at its first 60 points.
+const c19ColdHorizon = 60
+
 type c19ColdRun struct {
 	mc.SchedRun
 	Want []string
@@ -404,7 +407,13 @@ func c19ColdOne(threads []string, prefix []int) c19ColdRun {
 		cis, vs = append(cis, ci), append(vs, v)
 		bodies = append(bodies, func() string { return c19Str(alpha[ci].Do(in, v)) })
 	}
-	e, err := mc.RunSchedule(bodies, prefix, func(f func(int)) { verifsched.Hook = f }, 5*time.Second)
+	// a schedule that preempts a thread inside a critical section the other one wants blocks: such
+	// an execution is given up quickly (it is a fresh process; nothing is lost) and skipped
+	watchdog := 5 * time.Second
+	if len(prefix) > 0 {
+		watchdog = 500 * time.Millisecond
+	}
+	e, err := mc.RunSchedule(bodies, prefix, func(f func(int)) { verifsched.Hook = f }, watchdog)
 	out := c19ColdRun{SchedRun: e.Info()}
 	if err != nil {
 		out.Stuck = true
@@ -480,9 +489,11 @@ func c19ColdPass(out *c19WorkerOut, thorough bool, shard, shards int) {
 				}
 				r.Results[i] += "\x01" + w
 			}
-			if len(r.Points) > 60 && len(prefix) == 0 {
-				// too long to fork one process per schedule: keep the default schedule only
-				r.Points = nil
+			if len(r.Points) > c19ColdHorizon {
+				// too long to fork one process per schedule for every point: preemptions are explored at
+				// the first c19ColdHorizon scheduling points only (first-use windows open early), every
+				// execution still runs to completion
+				r.Points = r.Points[:c19ColdHorizon]
 			}
 			return r.SchedRun
 		}, func(r mc.SchedRun, prefix []int) {
@@ -514,7 +525,7 @@ func c19ColdPass(out *c19WorkerOut, thorough bool, shard, shards int) {
 			out.MaxPoints = st.MaxPoints
 		}
 		if st.Stuck {
-			out.Stuck = append(out.Stuck, fmt.Sprint(names, " (cold) ", lastErr))
+			out.Stuck = append(out.Stuck, fmt.Sprint(names, " (cold): ", st.StuckRuns, " schedules skipped, a thread blocked outside the scheduler ", lastErr))
 		}
 	}
 }
